@@ -508,3 +508,8 @@ def run(ctx):
     r9_trace_is_moved_unchanged(ctx)
     r10_program_text_is_read_verbatim(ctx)
     r11_errors_of_a_mapper_are_raised_where_the_text_is(ctx)
+    # a syntax error is reported at the reader's position when the fatal error reaches the top: no parser
+    # (the combinators, and the parser's own Parser impls) puts the input back and then returns an error that
+    # is not known to be soft (clause P of the combinator contract, with the rest of it)
+    from . import c20
+    c20.r_contract(ctx, c20.r_error_laws(ctx, "C11.R12e"), "C11.R12")
